@@ -29,6 +29,8 @@ from .core import AnalysisError
 from .repo import Repo
 
 
+BUILDER_REL = "src/pest/grammar/codegen/builder.py"
+
 class Opaque:
     """A value unknown at analysis time (a runtime property of the grammar)."""
 
@@ -495,7 +497,27 @@ class GenWalker:
             return Ident(name)
         if attr == "render":
             return _Text("\n".join(g.lines))
-        raise AnalysisError(f"{self.construct}: unknown Builder method {attr}")
+        # a helper defined on the repository's Builder: inline it (context managers are split at their yield)
+        helper = self.repo.method_or_none(BUILDER_REL, "Builder", attr)
+        if helper is None:
+            raise AnalysisError(f"{self.construct}: unknown Builder method {attr}")
+        names = [a.arg for a in helper.args.args]
+        defaults = helper.args.defaults
+        env: dict = {names[0]: g}
+        for n_, v in zip(names[1:], args, strict=False):
+            env[n_] = v
+        for k, v in kwargs.items():
+            env[k] = v
+        for n_, d in zip(names[len(names) - len(defaults):], defaults, strict=False):
+            if n_ not in env:
+                env[n_] = self.ev(d, {})
+        if any(ast.unparse(d).split(".")[-1] == "contextmanager" for d in helper.decorator_list):
+            ys = [i for i, st in enumerate(helper.body) if isinstance(st, ast.Expr) and isinstance(st.value, ast.Yield)]
+            nested = [n for n in ast.walk(helper) if isinstance(n, (ast.Yield, ast.YieldFrom))]
+            if len(ys) != 1 or len(nested) != 1:
+                raise AnalysisError(f"{self.construct}: Builder.{attr} is a context manager whose yield is not a single top-level statement")
+            return _CtxHelper(helper.body[: ys[0]], helper.body[ys[0] + 1 :], env, BUILDER_REL)
+        return self.inline(BUILDER_REL, "Builder", helper, [env[n_] for n_ in names if n_ in env])
 
     def generate_call(self, base: object, args: list, node: ast.Call) -> object:
         if len(args) != 3 or not isinstance(args[0], Gen):
@@ -549,6 +571,17 @@ class GenWalker:
             self.depth -= 1
             self._cur_cls, self.modconst, self._cur_rel = saved
 
+    def _run_helper(self, stmts: list[ast.stmt], c: "_CtxHelper") -> None:
+        saved = (self._cur_cls, self.modconst, self._cur_rel)
+        self._cur_cls, self._cur_rel = "Builder", c.rel
+        self.modconst = self.repo.mod(c.rel).constants()
+        self.depth += 1
+        try:
+            self.block(stmts, c.env)
+        finally:
+            self.depth -= 1
+            self._cur_cls, self.modconst, self._cur_rel = saved
+
     # ---------------------------------------------------------------- statements
     def block(self, stmts: list[ast.stmt], env: dict) -> None:
         for s in stmts:
@@ -574,16 +607,27 @@ class GenWalker:
             self.block(s.body if t else s.orelse, env)
             return
         if isinstance(s, ast.With):
-            ctxs = [self.ev(i.context_expr, env) for i in s.items]
-            if len(ctxs) == 1 and isinstance(ctxs[0], _Block):
-                g = ctxs[0].gen
-                g.indent += 1
-                try:
-                    self.block(s.body, env)
-                finally:
-                    g.indent -= 1
-                return
-            raise AnalysisError(f"{self.construct}: unsupported with: {ast.unparse(s.items[0].context_expr)}")
+            entered: list = []
+            try:
+                for i in s.items:
+                    c = self.ev(i.context_expr, env)
+                    if isinstance(c, _Block):
+                        c.gen.indent += 1
+                    elif isinstance(c, _CtxHelper):
+                        self._run_helper(c.pre, c)
+                    else:
+                        raise AnalysisError(f"{self.construct}: unsupported with: {ast.unparse(i.context_expr)}")
+                    entered.append(c)
+                    if i.optional_vars is not None:
+                        self.bind(i.optional_vars, c.gen if isinstance(c, _Block) else c.env.get("self"), env)
+                self.block(s.body, env)
+            finally:
+                for c in reversed(entered):
+                    if isinstance(c, _Block):
+                        c.gen.indent -= 1
+                    else:
+                        self._run_helper(c.post, c)
+            return
         if isinstance(s, ast.For):
             it = self.ev(s.iter, env)
             if isinstance(it, (list, tuple)):
@@ -663,6 +707,13 @@ class _Bound:
 class _Block:
     def __init__(self, gen: Gen):
         self.gen = gen
+
+
+class _CtxHelper:
+    """A @contextmanager helper of the repository's Builder, split at its yield."""
+
+    def __init__(self, pre: list, post: list, env: dict, rel: str):
+        self.pre, self.post, self.env, self.rel = pre, post, env, rel
 
 
 class _Super:
